@@ -16,13 +16,13 @@ import (
 // lexer anchors -----------------------------------------------------------------
 
 type lexAnchors struct {
-	lexerT                               *types.Named
-	next, backup, peek, emit, emitError  *ssa.Function
-	ignore, run                          *ssa.Function
-	eofVal, itemEOF                      int64
-	stateFns                             []*ssa.Function // functions of type func(*lexer) stateFn
-	cursorFns                            []*ssa.Function // every function taking or receiving *lexer
-	byName                               map[string]*ssa.Function
+	lexerT                              *types.Named
+	next, backup, peek, emit, emitError *ssa.Function
+	ignore, run                         *ssa.Function
+	eofVal, itemEOF                     int64
+	stateFns                            []*ssa.Function // functions of type func(*lexer) stateFn
+	cursorFns                           []*ssa.Function // every function taking or receiving *lexer
+	byName                              map[string]*ssa.Function
 }
 
 func (c *Ctx) lexAnchors() *lexAnchors {
@@ -427,7 +427,23 @@ func ruleX1(c *Ctx) {
 					}
 				}
 			}
-			isVal := func(v ssa.Value) bool {
+			var isVal func(v ssa.Value) bool
+			isVal = func(v ssa.Value) bool {
+				if phi, ok := v.(*ssa.Phi); ok && inComp[phi.Block().Index] {
+					// `for r := l.next(); cond(r); r = l.next()`: on every cycle the loop variable arrives over an
+					// in-loop edge, so only those edges matter for the end-of-input argument
+					n := 0
+					for i, e := range phi.Edges {
+						if !inComp[phi.Block().Preds[i].Index] {
+							continue
+						}
+						if e == ssa.Value(phi) || !isVal(e) {
+							return false
+						}
+						n++
+					}
+					return n > 0
+				}
 				if !a.isNextOrPeek(v) {
 					return false
 				}
